@@ -9,7 +9,7 @@ RULE = (
     "shapes up to 60 nodes incl. depth >= 6; distinct = hash of (family, shape, start); trivial = single-node subtree"
 )
 ASSUMPTIONS = ["depth <= 150 for the two recursive iterators (pre-order, post-order); the three level-order iterators are also driven through a 1 300-level chain"]
-GATES = ["mon.C05.sequence", "C05.depth_ge_4", "C05.cousins_at_different_positions", "C05.protocol", "C05.after_mutation", "C05.deep_spine_with_bush", "C05.streamed_groups", "C05.deeper_than_recursion_limit", "C05.non_restrictive_maxlevel"]
+GATES = ["mon.C05.sequence", "C05.depth_ge_4", "C05.cousins_at_different_positions", "C05.protocol", "C05.after_mutation", "C05.deep_spine_with_bush", "C05.streamed_groups", "C05.deeper_than_recursion_limit", "C05.non_restrictive_maxlevel", "C05.abandoned_traversal_before"]
 
 
 _DONE = object()
@@ -44,6 +44,14 @@ def check_tree(ctx, nodes, par, ch, case, starts=None):
         assert [x for g in exp["group"] for x in g] == exp["level"]
         if len(exp["group"]) >= 5:
             ctx.count("C05.depth_ge_4")
+        if len(exp["group"]) >= 3:
+            # an earlier grouped traversal of this tree was abandoned after two levels
+            for nm0, itcls0 in ITERS:
+                if nm0 in ("group", "zigzag"):
+                    it0 = itcls0(nodes[s])
+                    next(it0, None), next(it0, None)  # noqa: B018
+                    del it0
+            ctx.count("C05.abandoned_traversal_before")
         for nm, itcls in ITERS:
             ctx.count("mon.C05.sequence")
             it = itcls(nodes[s])
@@ -87,9 +95,14 @@ def check_tree(ctx, nodes, par, ch, case, starts=None):
                 # streaming consumption: every group is dropped before the next one is requested
                 ctx.count("C05.streamed_groups")
                 stream = []
-                for grp in itcls(nodes[s]):
+                it3 = itcls(nodes[s])
+                for grp in it3:
                     stream.append([idmap.get(id(x), "?") for x in grp])
                     del grp
+                    try:
+                        repr(it3)  # a debugger / log line looking at the running iterator
+                    except Exception:  # noqa: B902
+                        pass
                 if stream != obs:
                     ctx.violation("C05/order/%s-streamed" % nm, "reference-order", dict(case, start=s), expected=obs, observed=stream)
                     ok = False
@@ -113,7 +126,7 @@ def run(ctx):
 
     T = ctx.tier == "thorough"
     nmax = 11 if T else 8
-    fams = TR.READ_FAMILIES
+    fams = TR.READ_FAMILIES + ("BARE",)
     idx = 0
     for n in range(1, nmax + 1):
         cnt = 0
